@@ -121,6 +121,7 @@ def local_stream_tokens(f, pick):
 
 def r10b(ctx):
     prog = ctx.prog
+    c11.Fmt.prog = prog
     gen = prog.fn('TMCG_SecretKey::generate', 0)
     chk = prog.fn('TMCG_PublicKey::check', 0)
     # writer: the ostringstream that receives "nzk^"
